@@ -1,3 +1,5 @@
+#[cfg(feature = "iggy_verif")]
+use iggy::verif::tokio;
 use atone::Vc;
 use iggy::utils::byte_size::IggyByteSize;
 use std::path::{Path, PathBuf};
